@@ -40,6 +40,7 @@ type Stats struct {
 	C           map[string]int64 // named counters (vacuity guards, bounds reached)
 	Outcomes    map[string]int64 // distinct observed outcomes (small cardinality)
 	Caps        map[string]bool  // caps hit => not exhaustive
+	M           map[string]int64 // named maxima (depth reached, bound completed)
 	Samples     []any            // a few written-out traces / inputs of this run
 }
 
@@ -54,11 +55,18 @@ func (s *Stats) Sample(v any) {
 func (s *Stats) WantSample() bool { return len(s.Samples) < 3 }
 
 func newStats() *Stats {
-	return &Stats{C: map[string]int64{}, Outcomes: map[string]int64{}, Caps: map[string]bool{}}
+	return &Stats{M: map[string]int64{}, C: map[string]int64{}, Outcomes: map[string]int64{}, Caps: map[string]bool{}}
 }
 
 // Inc adds to a named counter.
 func (s *Stats) Inc(name string, n int64) { s.C[name] += n }
+
+// Max raises a named maximum.
+func (s *Stats) Max(name string, v int64) {
+	if v > s.M[name] {
+		s.M[name] = v
+	}
+}
 
 // Outcome records one observed outcome class.
 func (s *Stats) Outcome(name string) { s.Outcomes[name]++ }
@@ -77,6 +85,9 @@ func (s *Stats) merge(o *Stats) {
 	}
 	for k, v := range o.Outcomes {
 		s.Outcomes[k] += v
+	}
+	for k, v := range o.M {
+		s.Max(k, v)
 	}
 	for k, v := range o.Caps {
 		if v {
@@ -489,6 +500,7 @@ func writeEvidence[C any](s Spec[C], tier string, seed int64, st *Stats, samples
 		"rule":                s.Rule,
 		"exhaustive":          exhaustive,
 		"counters":            st.C,
+		"maxima":              st.M,
 		"distinct_outcomes":   len(st.Outcomes),
 		"outcomes":            st.Outcomes,
 		"budget_s":            bsec,
